@@ -48,6 +48,12 @@ class CodecUnit(Unit):
                 sp.exc = (val, {})
             elif kind == 'exc+':
                 sp.exc = val
+            elif kind == 'ret+':
+                # value plus separately named clauses [(name, z3 bool, detail)] (kept apart so that a known finding on one
+                # clause does not absorb refutations of the others)
+                sp.ret, extra = val
+                sp.extra_clauses = extra
+                sp.post = [(n, (lambda t=t: t)) for (n, t, d) in extra]
             return sp
         Unit.__init__(self, name, qual, build, spec, kind='codec', props=props, doc=doc,
                       verify_kw={'light': light, 'max_paths': max_paths})
@@ -91,7 +97,11 @@ class CodecUnit(Unit):
         if sp.exc is not None:
             cls = sp.exc[0]
             return self._cmp('raise', None, cls if isinstance(cls, str) else cls.name, out, model, 'spec')
-        return self._cmp('return', sp.ret, None, out, model, 'spec')
+        diffs = self._cmp('return', sp.ret, None, out, model, 'spec')
+        for (n, t, d) in getattr(sp, 'extra_clauses', []):
+            if z3.is_false(z3.simplify(t)):
+                diffs.append('%s: %s (real code returned %s)' % (n, d, str(out.get('result'))[:80]))
+        return diffs
 
     def _predicted(self, outcome, model, out):
         if outcome.kind == 'raise':
